@@ -216,6 +216,29 @@ def jump_decision(body, m):
     raise TranslateError("symbolic JUMP: assignment to reachable_targets not found")
 
 
+def funds_sites(tree):
+    """SEVM.call / SEVM.create: every function that forks on insufficient funds must debit the same account by the
+    same amount on the side that goes ahead.  -> True iff in both functions the (payer, amount) arguments of
+    handle_insufficient_fund_case and of every transfer_value coincide; fail closed on an unexpected call shape."""
+    same = True
+    for fname in ("call", "create"):
+        fn = find_function(tree, fname, cls="SEVM")
+        forks, moves = [], []
+        for node in ast.walk(fn):
+            if isinstance(node, ast.Call) and _src(node.func) == "self.handle_insufficient_fund_case":
+                if len(node.args) != 5 or node.keywords:
+                    raise TranslateError(f"SEVM.{fname}: handle_insufficient_fund_case call shape {_src(node)}")
+                forks.append((_src(node.args[0]), _src(node.args[1])))
+            if isinstance(node, ast.Call) and _src(node.func) == "self.transfer_value":
+                if len(node.args) not in (4, 5) or node.keywords or _src(node.args[0]) != "ex":
+                    raise TranslateError(f"SEVM.{fname}: transfer_value call shape {_src(node)}")
+                moves.append((_src(node.args[1]), _src(node.args[3])))
+        if len(forks) != 1 or not moves:
+            raise TranslateError(f"SEVM.{fname}: {len(forks)} insufficient-funds forks and {len(moves)} transfers found")
+        same = same and all(mv == forks[0] for mv in moves)
+    return same
+
+
 def translate(src_text):
     tree = ast.parse(src_text)
     decisions = {}
@@ -229,6 +252,7 @@ def translate(src_text):
     jump_decision(body, m)
     m.block(body, JUMP)
     decisions.update(m.decisions)
+    payer_same = funds_sites(tree)
     want = ["alias_keep", "alias_empty_keep", "funds_fail_keep", "jump_keep"]
     if sorted(decisions) != sorted(want):
         raise TranslateError(f"decision expressions found: {sorted(decisions)}, expected {sorted(want)}")
@@ -245,7 +269,10 @@ def translate(src_text):
               "   - insufficient funds: fail side ULT(balance, value), kept by funds_fail_keep; succeeding side",
               "     UGE(balance, value) appended by transfer_value, dropped only when it simplifies to false;",
               "   - symbolic JUMP: one branch per valid destination kept by jump_keep; no branch for an invalid destination",
-              "     unless no destination is kept at all (then the whole state halts). *)",
+              "     unless no destination is kept at all (then the whole state halts);",
+              "   - call sites (SEVM.call, SEVM.create): funds_payer_same = the account (and the amount) whose balance decides",
+              "     the insufficient-funds fork is the one transfer_value debits on the side that goes ahead. *)",
+              f"Definition funds_payer_same : bool := {'true' if payer_same else 'false'}.",
               "Definition alias_skips_test_contract : bool := true.",
               "Definition jump_reports_invalid_destination : bool := false.", ""]
     info = {"decisions": decisions}
